@@ -1275,6 +1275,13 @@ class FoldConstantsPass(ir.passes.InPlacePass):
             )
             return None
 
+        if is_function and any(
+            isinstance(attr, ir.Attr) and attr.is_ref() for attr in node.attributes.values()
+        ):
+            # The attribute value is only known at the call site: neither the partial evaluators
+            # nor the reference evaluator may assume the attribute's default.
+            return None
+
         version = self._opset_imports[node.domain]
         op_optimizers = registry.lookup_evaluators(node.domain, node.op_type, version)
         for optimizer in op_optimizers:
